@@ -1061,7 +1061,10 @@ impl Cx<'_> {
                 variants.push(v);
             }
             // per-variant untagged: a suffix of the variant list
-            if repr != Repr::Untagged && nv >= 2 && !self.p.external_only && !force_unit && t.pct(12) {
+            // (more often when the enum renames the fields of its variants: the rule applies to
+            // untagged variants as well)
+            let untagged_pct = if attrs.rename_all_fields.is_some() { 40 } else { 12 };
+            if repr != Repr::Untagged && nv >= 2 && !self.p.external_only && !force_unit && t.pct(untagged_pct) {
                 let k = 1 + t.choose(nv - 1);
                 for v in variants.iter_mut().skip(nv - k) {
                     v.untagged = true;
